@@ -137,6 +137,12 @@ class TableMonitor:
                 back = 're-inserted' if id(x) in gone else 'left-in-table'
                 ck.violation(f'table-holds-deleted:{back}@{ctx_of(rec)}',
                              {'table': [(y.my_spi.hex(), y.state.name) for y in table], 'trace': sim.trace[-12:]}, getattr(sim, 'case', None))
+            elif x.state == State.INITIAL and (ep.name, 'initial') not in self.flagged:
+                # between loop iterations an IKE_SA has either started (request sent / request answered) or is gone: one that could not even process
+                # the IKE_SA_INIT request that created it ended by a fatal error and must not stay
+                self.flagged.add((ep.name, 'initial'))
+                ck.violation(f'table-keeps-an-ike-sa-that-never-started:INITIAL@{ctx_of(rec)}',
+                             {'table': [(y.my_spi.hex(), y.state.name, 'initiator' if y.is_initiator else 'responder') for y in table], 'trace': sim.trace[-8:]}, getattr(sim, 'case', None))
             elif id(x) in gone and (ep.name, 'back') not in self.flagged:
                 self.flagged.add((ep.name, 'back'))
                 ck.violation(f'table-object-came-back:{x.state.name}@{ctx_of(rec)}', {'trace': sim.trace[-12:]}, getattr(sim, 'case', None))
